@@ -1,4 +1,5 @@
 // Included by hook H3b inside `crate::protocol::context::dzkp_validator` (access to Batch internals).
+#[cfg(descriptive_gate)]
 pub(crate) mod c03 {
     include!(concat!(env!("IPA_VERIF_DIR"), "/harness/c03.rs"));
 }
